@@ -1,6 +1,7 @@
 import SlugModel.Lemmas.TrEq_normalizeSubpath
 import SlugModel.Lemmas.TrEq_splitSubPath
 import SlugModel.Lemmas.TrEq_validSubPath
+import SlugModel.Lemmas.Local
 /-!
 # C07 (tie by translation)
 
@@ -24,5 +25,64 @@ theorem C07_tie_splitSubPath (s : Str) : Gen.splitSubPath s = splitSubPath s :=
 /-- **C07_tie_validSubPath.** The model's `validSubPath` is the translated `ValidSubPath` (sourceaddrs/subpath.go). -/
 theorem C07_tie_validSubPath (s : Str) : Gen.validSubPath s = validSubPath s :=
   gen_validSubPath s
+
+/-! ### The property, stated over the translated functions -/
+
+/-- **C07_gen_normalizeSubpath_sound.** The Go function `normalizeSubpath` (sourceaddrs/subpath.go), as
+translated: whenever it returns `r` without error for the given string `s`, it has not rewritten anything
+(`r = s`), and either both are empty (no sub-path: the package root) or `r` is a valid sub-path — accepted by
+`fs.ValidPath`, not `.`, none of its `/`-separated segments empty, `.` or `..` — and it is the cleaned form
+`path.Clean s` of what was given. -/
+theorem C07_gen_normalizeSubpath_sound (s r : Str) (h : Gen.normalizeSubpath s = (r, false)) :
+    r = s ∧
+    ((r = [] ∧ s = []) ∨
+     (validPath r = true ∧ r ≠ dot ∧ (∀ e ∈ splitOn '/' r, e ≠ [] ∧ e ≠ dot ∧ e ≠ dotdot) ∧
+      r = pathClean s)) := by
+  rw [gen_normalizeSubpath] at h
+  cases hn : normalizeSubpath s with
+  | none => rw [hn] at h; simp at h
+  | some x =>
+    rw [hn] at h
+    have hx : x = r := by simpa using h
+    subst hx
+    obtain ⟨he, hv⟩ := normalizeSubpath_some s x hn
+    subst he
+    refine ⟨rfl, ?_⟩
+    by_cases h0 : x = []
+    · exact Or.inl ⟨h0, h0⟩
+    · rcases hv with h1 | ⟨hvp, hd⟩
+      · exact absurd h1 h0
+      · refine Or.inr ⟨hvp, hd, ?_, (pathClean_of_validPath x hvp).symm⟩
+        have hp := validSub_allPlain x (Or.inr ⟨hvp, hd⟩)
+        unfold segsOf at hp
+        simp only [h0, if_false] at hp
+        exact hp
+
+/-- **C07_gen_normalizeSubpath_complete.** Conversely the translated `normalizeSubpath` accepts, unchanged,
+every valid sub-path (the empty one, or a `fs.ValidPath` path other than `.`), and rejects every other string. -/
+theorem C07_gen_normalizeSubpath_complete (s : Str) :
+    (ValidSub s → Gen.normalizeSubpath s = (s, false)) ∧
+    (¬ ValidSub s → Gen.normalizeSubpath s = ([], true)) := by
+  rw [gen_normalizeSubpath]
+  constructor
+  · intro h; rw [normalizeSubpath_of_validSub s h]
+  · intro h
+    cases hn : normalizeSubpath s with
+    | none => rfl
+    | some x => exact absurd (normalizeSubpath_some s x hn).2 h
+
+/-- **C07_gen_validSubPath_iff.** The Go function `ValidSubPath` (sourceaddrs/subpath.go), as translated, answers
+`true` exactly for the valid sub-paths: the empty string, or a string accepted by `fs.ValidPath` other than `.`
+— equivalently exactly for the strings the translated `normalizeSubpath` returns (unchanged) without error. -/
+theorem C07_gen_validSubPath_iff (s : Str) :
+    (Gen.validSubPath s = true ↔ ValidSub s) ∧
+    (Gen.validSubPath s = true ↔ Gen.normalizeSubpath s = (s, false)) := by
+  have h1 : Gen.validSubPath s = true ↔ ValidSub s := by
+    rw [gen_validSubPath]; exact validSubPath_iff s
+  refine ⟨h1, h1.trans ⟨(C07_gen_normalizeSubpath_complete s).1, fun h => ?_⟩⟩
+  obtain ⟨_, hh⟩ := C07_gen_normalizeSubpath_sound s s h
+  rcases hh with ⟨h0, _⟩ | ⟨hv, hd, _, _⟩
+  · exact Or.inl h0
+  · exact Or.inr ⟨hv, hd⟩
 
 end Slug
